@@ -31,7 +31,7 @@ def classify_ext(t):
     return None
 
 
-def _inc_stmts(body, b, _ex={}):
+def _inc_stmts(body, b):
     """statement-level frequency increment of an async entry: (*e).2 = saturating_add((*e).2, 1)"""
     out = []
     for st in body.blocks[b]['stmts']:
@@ -39,9 +39,9 @@ def _inc_stmts(body, b, _ex={}):
             continue
         proj = [e for e in (st['dst'].get('proj') or []) if e != 'deref']
         if proj and isinstance(proj[-1], dict) and proj[-1].get('name') == '2' and proj[-1].get('on') == 'tuple':
-            if body.id not in _ex:
-                _ex[body.id] = Expr(body)
-            e = _ex[body.id].rvalue(st['rv'])
+            if not hasattr(body, '_ex_cache'):
+                body._ex_cache = Expr(body)  # cached on the Body object itself: an altered copy of the body (planted defects) has its own
+            e = body._ex_cache.rvalue(st['rv'])
             e = strip_casts(e)
             if e[0] == 'call' and e[1].endswith('::saturating_add') and len(e[2]) == 2:
                 root, names = field_path(e[2][0])
@@ -776,6 +776,26 @@ def check_store_pairing(run, ctx, rule='C04-P4'):
 # ------------------------------------------------------------------------------------------------
 # eviction routines: one victim, victim leaves both (C04-P1/P2, C05-P*, C18-P1)
 # ------------------------------------------------------------------------------------------------
+def victim_oracle_sites(ctx, C, fn):
+    """call sites in the scope of fn whose result says whether a victim is available: (membership tests of a queue key in the
+    store, calls that yield a queue key - pops, positional removals, the LFU/ARC/TLRU selectors -, emptiness tests)"""
+    member = [(x.id, b) for x in C.scope(fn) for b, t in x.calls() if classify(t) == 'S?']
+    selected = [(x.id, b) for x in C.scope(fn) for b, t in x.calls() if classify(t) in ('Q-front', 'Q-at', 'Q-back')]
+    empties = [(x.id, b) for x in C.scope(fn) for b, t in x.calls() if callee_name(t) in (N.VD + 'is_empty', N.HM + 'is_empty', N.DM + 'is_empty')]
+    # calls of the victim selectors (LFU/ARC/TLRU): with stored keys in the queue they find a victim
+    sel_ids = {b_.id for (_, _, b_) in C.selectors()}
+    for x in C.scope(fn):
+        for b, t in x.calls():
+            if any(cb.id in sel_ids for cb in ctx.prog.lookup(t)):
+                selected.append((x.id, b))
+        # a selector run inside LocalKey::with(closure): the `with` call returns its result
+        for b, t in x.calls():
+            for cb in ctx.prog.closures_passed(t):
+                if any(any(c2.id in sel_ids for c2 in ctx.prog.lookup(t2)) for _, t2 in cb.calls()) and callee_name(t) == 'std::thread::local::LocalKey::with':
+                    selected.append((x.id, b))
+    return member, selected, empties
+
+
 def eviction_rows(ctx):
     if hasattr(ctx, '_evict_rows'):
         return ctx._evict_rows
@@ -787,19 +807,7 @@ def eviction_rows(ctx):
         anchors[flav] = fn.name if fn else None
         if fn is None:
             continue
-        member = [(x.id, b) for x in C.scope(fn) for b, t in x.calls() if classify(t) == 'S?']
-        selected = [(x.id, b) for x in C.scope(fn) for b, t in x.calls() if classify(t) in ('Q-front', 'Q-at', 'Q-back')]
-        # calls of the victim selectors (LFU/ARC/TLRU): with stored keys in the queue they find a victim
-        sel_ids = {b_.id for (_, _, b_) in C.selectors()}
-        for x in C.scope(fn):
-            for b, t in x.calls():
-                if any(cb.id in sel_ids for cb in ctx.prog.lookup(t)):
-                    selected.append((x.id, b))
-            # a selector run inside LocalKey::with(closure): the `with` call returns its result
-            for b, t in x.calls():
-                for cb in ctx.prog.closures_passed(t):
-                    if any(any(c2.id in sel_ids for c2 in ctx.prog.lookup(t2)) for _, t2 in cb.calls()) and callee_name(t) == 'std::thread::local::LocalKey::with':
-                        selected.append((x.id, b))
+        member, selected, empties = victim_oracle_sites(ctx, C, fn)
         for p in range(6):
             for mem_oracle in (1, 0):
                 a = {'policy': p, 'limit': 1, 'max_memory': 0, 'ttl': 1}
@@ -808,6 +816,8 @@ def eviction_rows(ctx):
                     # the queue is not empty and its keys are stored: pops / positional removals yield a key
                     for s in selected:
                         orc[s] = 1
+                    for s in empties:
+                        orc[s] = 0
                 # the overflow comparison is true
                 for (xid, bi), lst in C.cmp_sites(fn).items():
                     for (kind, si, op, ra, rb) in lst:
@@ -837,7 +847,7 @@ def check_one_victim(run, ctx, rule_p1='C04-P1', rule_p2='C04-P2'):
             if d['S-'] > 1:
                 run.bad(rule_p1, key + '/two-victims', 'an overflowing store can remove more than one entry (%s)' % where, site=r['fn'].name,
                         oracle='at most one store removal per overflow on every path')
-            elif r['member'] == 1 and d['S-'] == 0 and p != 'Random':
+            elif r['member'] == 1 and d['S-'] == 0:
                 run.bad(rule_p1, key + '/overflow-unanswered', 'the cache is over its limit and a victim is available, but a path removes nothing (%s): the cache keeps more than `limit` entries' % where,
                         site=r['fn'].name, oracle='an overflowing store removes exactly one entry')
             elif r['member'] == 1 and d['S-'] != min(1, d['Qrem']) and not (d['S-'] == 0 and d['Qrem'] == 0):
@@ -1164,13 +1174,14 @@ def check_memory_loop(run, ctx):
             run.bad('C05-P1', '%s/fail-closed' % flav, 'fail-closed: cannot tell which outcome of the fit test of %s ends the loop' % fn.name, site=fn.name)
             continue
         fits_raw = lambda truth: ftv if truth else 1 - ftv
-        member = [(x.id, b) for x in C.scope(fn) for b, t in x.calls() if classify(t) == 'S?']
-        selected = [(x.id, b) for x in C.scope(fn) for b, t in x.calls() if classify(t) in ('Q-front', 'Q-at', 'Q-back')]
+        member, selected, empties = victim_oracle_sites(ctx, C, fn)
         for p in range(6):
             a = {'policy': p, 'limit': 0, 'max_memory': 1, 'ttl': 1}
             orc = {(xid, bi, si): fits_raw(0)}
             for s_ in member + selected:
                 orc[s_] = 1
+            for s_ in empties:
+                orc[s_] = 0
             w = C.weigher(a, orc, root=fn)
             sp = w.spec(body)
             seg = segment_totals(sp, {bi}, {bi})
@@ -1187,6 +1198,10 @@ def check_memory_loop(run, ctx):
                         okk = False
                         run.bad('C05-P1', key + '/victim-half-removed', 'one iteration of the memory eviction loop removes %d store entr%s and %d queue key(s) (%s, policy %s)' % (
                             d['S-'], 'y' if d['S-'] == 1 else 'ies', d['Qrem'], fn.name, POL[p]), site=fn.name, oracle='one victim per iteration, removed from store and queue together')
+                    elif how == 'return' and d['S-'] == 0 and d['cmp:oversize'] == 0:
+                        okk = False
+                        run.bad('C05-P1', key + '/gives-up-with-a-victim-available', 'the total exceeds max_memory and the queue holds stored keys, but an iteration of the eviction loop of %s '
+                                'removes nothing and leaves (policy %s): the cache stays above max_memory' % (fn.name, POL[p]), site=fn.name, oracle='evict until the total fits')
                     elif how == 'stop' and d['S-'] == 0:
                         okk = False
                         run.bad('C05-P1', key + '/loops-without-evicting', 'an iteration of the memory eviction loop that removed nothing goes round again (%s, policy %s): the store '
@@ -1315,6 +1330,30 @@ def _abs_bin(ctx, body, op, a, b, depth):
     return '(%s %s %s)' % (x, sym, y)
 
 
+def _guards_of(ctx, body, ex, blk):
+    """abstract forms ('F > 0', ...) of the comparisons whose outcome the block is control-dependent on, oriented to the
+    outcome that leads to the block"""
+    NEGS = {'<': '>=', '<=': '>', '>': '<=', '>=': '<', '==': '!=', '!=': '=='}
+    SY = {'Lt': '<', 'Le': '<=', 'Gt': '>', 'Ge': '>=', 'Eq': '==', 'Ne': '!='}
+    out = set()
+    for (br, succ) in body.cdeps.get(blk, ()):
+        t = body.term(br)
+        if t['k'] != 'switch' or len(t['targets']) != 1 or t['targets'][0][0] != 0:
+            continue
+        p_ = t['discr'].get('move') or t['discr'].get('copy')
+        if p_ is None:
+            continue
+        for d in body.defs.get(p_['l'], []):
+            if d[0] == 'stmt' and 'bin' in d[3] and d[3]['bin'] in SY:
+                a = _abs_form(ctx, body, ex.operand(d[3]['a']))
+                b = _abs_form(ctx, body, ex.operand(d[3]['b']))
+                sym = SY[d[3]['bin']]
+                if succ == t['targets'][0][1] and succ != t['otherwise']:
+                    sym = NEGS[sym]
+                out.add('%s %s %s' % (a, sym, b))
+    return out
+
+
 # documented score factors, in abstract normal form (see _abs_form)
 FACTOR_FORMS = {
     'FREQ': {'F', '(F * W)', 'powf(F, W)', '0'},
@@ -1379,6 +1418,17 @@ def analyse_selector(ctx, body):
         bi, sym, score, phil = best[0]
         info['cmp_sym'] = sym
         info['cmp_block'] = bi
+        # which outcome of the comparison updates the running best?  (a swapped if/else or a negated test selects the maximum)
+        info['update_edge'] = None
+        tsw = body.term(bi)
+        if tsw['k'] == 'switch' and len(tsw['targets']) == 1 and tsw['targets'][0][0] == 0:
+            false_t, true_t = tsw['targets'][0][1], tsw['otherwise']
+            upd = [d[1] for d in body.defs.get(phil, []) if d[1] != 0 and not (d[0] == 'stmt' and 'use' in d[3] and 'const' in d[3]['use'])]
+            upd = [b_ for b_ in upd if body.dominates(bi, b_)]
+            if upd:
+                on_true = all(body.dominates(true_t, b_) for b_ in upd) and true_t != false_t
+                on_false = all(body.dominates(false_t, b_) for b_ in upd) and true_t != false_t
+                info['update_edge'] = 'true' if on_true and not on_false else 'false' if on_false and not on_true else None
         factors = _mul_factors(score)
         fi = []
         for f in factors:
@@ -1420,6 +1470,11 @@ def analyse_selector(ctx, body):
                 detail = txt
             fi.append((kind, detail))
             info.setdefault('forms', []).append((kind, forms))
+            if f0[0] == 'phi' and kind.startswith('FREQ'):
+                for d_ in body.defs.get(f0[1], []):
+                    fm = _abs_form(ctx, body, ex._def(d_, 0))
+                    if fm in ('0', 'powf(F, W)'):
+                        info.setdefault('freq_guards', []).append((fm, sorted(_guards_of(ctx, body, ex, d_[1]))))
         info['score'] = fi
     return info
 
@@ -1449,6 +1504,11 @@ def check_selectors(run, ctx):
         if len(info['best_cmp']) != 1:
             run.bad('C08-K1', key + '/unrecognised-form', 'expected one comparison of a candidate score with the running minimum in %s, found %d' % (name, len(info['best_cmp'])), site=name)
             continue
+        if info.get('update_edge') is None:
+            run.bad('C08-K1', key + '/unrecognised-form', 'cannot tell which outcome of the comparison with the running minimum updates it in %s' % name, site=name)
+            continue
+        if info['update_edge'] == 'false':
+            info['cmp_sym'] = {'<': '>=', '<=': '>', '>': '<=', '>=': '<'}[info['cmp_sym']]
         if info['cmp_sym'] not in ('<', '<='):
             run.bad('C08-K1', key + '/direction', 'the candidate replaces the running best when its score is `%s` the best so far in %s: that selects the maximum, not the minimum'
                     % (info['cmp_sym'], name), site='%s (%s)' % (name, body.loc(info['cmp_block'])), oracle='replace on < (or <=)')
@@ -1465,6 +1525,15 @@ def check_selectors(run, ctx):
                         'N queue length, E age in seconds)' % (fam, pol, name, ' | '.join(odd), ' | '.join(sorted(FACTOR_FORMS[fam]))), site=name, oracle='score factor in a documented normal form')
             else:
                 run.ok('C08-K2', key + '/factor-form/' + fam, ' | '.join(forms_))
+        ZERO_OK = {'F <= 0', 'F == 0', 'F < 1', '0 >= F', '0 == F', '1 > F'}
+        POW_OK = {'F > 0', 'F != 0', 'F >= 1', '0 < F', '0 != F', '1 <= F'}
+        for (fm, gs) in info.get('freq_guards', []):
+            okg = bool(set(gs) & (ZERO_OK if fm == '0' else POW_OK))
+            if okg:
+                run.ok('C08-K2', '%s/freq-guard/%s' % (key, fm), 'taken when %s' % ' / '.join(gs))
+            else:
+                run.bad('C08-K2', key + '/freq-guard', 'in %s the hit-count factor is %s when %s: the weighted hit count must be used for every entry that has hits '
+                        '(0 only for an entry without hits)' % (name, fm, ' and '.join(gs) or 'no recognisable test holds'), site=name, oracle='0 iff F == 0, powf(F, W) iff F > 0')
         if pol == 'LFU':
             if kinds != ['FREQ']:
                 run.bad('C08-K2', key + '/score', 'LFU score must be the hit counter of the looked-up entry; found factors %s' % info['score'], site=name)
